@@ -67,7 +67,7 @@ _COV = re.compile(r"^<(\w+) line \d+, col \d+ to line \d+, col \d+ of module (\w
 
 def run_tlc(module, cfg_text, workers=1, simulate=None, depth=None, seed=None, extra=(), env=None,
             timeout=3600, heap="6g", coverage=False, dump=None, deque=False, tag=None, keep_out=True,
-            on_case=None, wrapper=None):
+            on_case=None, wrapper=None, extra_files=None):
     """Run TLC on spec/<module>.tla with the given configuration text.
 
     on_case: optional callback invoked with every parsed JSON case (streaming; cases are then
@@ -80,6 +80,9 @@ def run_tlc(module, cfg_text, workers=1, simulate=None, depth=None, seed=None, e
     with open(cfg, "w") as f:
         f.write(cfg_text)
     meta = os.path.join(wd, "meta")
+    for fname, text in (extra_files or {}).items():      # e.g. a mutated copy of a specification module (self-test)
+        with open(os.path.join(wd, fname), "w") as f:
+            f.write(text)
     cmd = ["java", "-XX:+UseParallelGC", "-Xmx" + heap, "-Xss64m", "-DTLA-Library=" + SPEC_DIR]
     if deque:
         cmd.append("-Dtlc2.tool.queue.IStateQueue=StateDeque")
